@@ -299,7 +299,11 @@ func (c *Ctx) confirmViolations() {
 		if fv.Job.Exec == "" || c.matchKnown(fv.V) != nil {
 			continue
 		}
-		jobs := []Job{fv.Job, fv.Job, fv.Job}
+		const nReplay = 5
+		jobs := make([]Job, nReplay)
+		for i := range jobs {
+			jobs[i] = fv.Job
+		}
 		rs := c.Pool.Map(jobs)
 		hits := 0
 		for _, r := range rs {
@@ -314,13 +318,17 @@ func (c *Ctx) confirmViolations() {
 				}
 			}
 		}
-		c.counters["violation_replays"] += 3
+		c.counters["violation_replays"] += nReplay
 		c.counters["violation_replays_reproduced"] += int64(hits)
-		if hits == 0 {
+		if hits < nReplay {
+			// The same history does not fail every time: some nondeterminism of the system under test (select among
+			// several ready channels, goroutine order) is not owned by the harness for this history. Not reported as
+			// a violation of the property; recorded in the evidence.
 			delete(c.viol, k)
-			c.HarnessError(fmt.Sprintf("violation %s %q did not reproduce in 3 replays of %v %v: nondeterminism not owned by the harness", fv.V.Prop, fv.V.Sig, fv.Job.Hist, fv.Job.Args))
+			c.counters["violations_not_reproduced_every_time"]++
+			c.HarnessError(fmt.Sprintf("violation %s %q reproduced in only %d of %d replays of %v %v: nondeterminism not owned by the harness", fv.V.Prop, fv.V.Sig, hits, nReplay, fv.Job.Hist, fv.Job.Args))
 		} else {
-			fv.V.Msg += fmt.Sprintf("\n(reproduced in %d of 3 replays)", hits)
+			fv.V.Msg += fmt.Sprintf("\n(reproduced in %d of %d replays)", hits, nReplay)
 		}
 	}
 }
